@@ -76,13 +76,21 @@ def main():
                             branch_worlds=[],
                             got=f'model access class {acc} = (reflexive, transitive, symmetric, serial) {tuple(map(bool, need))}',
                             expected=f'frame rules {sorted(names & {"Reflexive", "Transitive", "Symmetric", "Serial"})} = {tuple(map(bool, rules_need))}'))
-        for worlds, pairs in cases_for(Meta.name, rng):
+        base_cases = [(w_, p_, False) for w_, p_ in cases_for(Meta.name, rng)]
+        # worlds that occur ONLY in access nodes (world 0 alone carries a sentence): the frame condition covers them too
+        bare = [(w_, p_, True) for w_, p_, _ in base_cases
+                if len(w_) in (2, 3) and p_ and {x for pr_ in p_ for x in pr_} | {0} == set(w_)]
+        if tier == 'quick':
+            bare = rng.sample(bare, min(len(bare), 25))
+        for worlds, pairs, is_bare in base_cases + bare:
             rec = dict(logic=Meta.name, worlds=worlds, pairs=[list(p) for p in pairs], ok=True, why='')
+            if is_bare:
+                rec['bare'] = True
             try:
                 tab = Tableau(logic)
                 b = tab.branch()
                 d = True if any(getattr(r, 'designation', None) is not None for g in logic.Rules.groups for r in g) else None
-                for w in worlds:
+                for w in (worlds[:1] if is_bare else worlds):
                     b.append(sdwnode(A, d, w))
                 for (w1, w2) in pairs:
                     b.append(anode(w1, w2))
